@@ -222,12 +222,46 @@ func c17History(kind string) {
 		}
 		c17OtherDump = kv
 	}
-	in := c17OtherDump.DeepCopy()
-	if kind == "failed-import" {
-		last := len(in) - 1
-		in[last].Value = in[last].Value[:len(in[last].Value)/2]
+	// kind = steps joined by "+": "other-import" (intact dump), "failed-import" (= fail:info), "fail:C<i>"
+	// (value of component i cut in half), "fail:info" (last service info cut in half), "fail:lookup"
+	// (an attributable lookup value that declares 5 timeslots and has none). The damaged key-value is
+	// moved to the end of the dump so that the importer has seen every other entry before it fails.
+	for _, step := range strings.Split(kind, "+") {
+		in := c17OtherDump.DeepCopy()
+		bad := -1
+		switch {
+		case step == "failed-import" || step == "fail:info":
+			for i := range in {
+				if c17IsInfoKey(in[i].Key) {
+					bad = i
+				}
+			}
+		case strings.HasPrefix(step, "fail:C"):
+			var ci int
+			fmt.Sscanf(step, "fail:C%d", &ci)
+			for i := range in {
+				if in[i].Key == m.C(types.U8(ci)) {
+					bad = i
+				}
+			}
+		case step == "fail:lookup":
+			want := m.EncodeDelta4Key(types.ServiceID(0x0BADF00D), c17LookupKey(2))
+			for i := range in {
+				if in[i].Key == want {
+					bad = i
+					in[i].Value = types.ByteSequence{5}
+				}
+			}
+		}
+		if bad >= 0 {
+			if step != "fail:lookup" {
+				in[bad].Value = in[bad].Value[:len(in[bad].Value)/2]
+			}
+			kv := in[bad]
+			in = append(append(in[:bad:bad], in[bad+1:]...), kv)
+		}
+		vlib.Guard(func() { m.StateKeyValsToState(in) })
 	}
-	vlib.Guard(func() { m.StateKeyValsToState(in) })
 }
 
 // c17Judge: the oracle for one completed import.
@@ -540,6 +574,22 @@ func TestVerif_C17(t *testing.T) {
 		}
 		cfgs = append(cfgs, c17LookupConfigs()[:24]...)
 		for _, cfg := range cfgs {
+			idx++
+			if r.Mine(idx) {
+				c17RunConfig(r, nil, cfg, h, false, nil)
+			}
+		}
+	}
+	// one malformed dump per reachable error return (each of the 16 components, a service info, an
+	// attributable lookup value), and good-bad-good sequences
+	var kinds []string
+	for ci := 1; ci <= 16; ci++ {
+		kinds = append(kinds, fmt.Sprintf("history:fail:C%d", ci))
+	}
+	kinds = append(kinds, "history:fail:lookup", "history:other-import+fail:info", "history:fail:C13+other-import+fail:lookup")
+	for _, h := range kinds {
+		for _, cfg := range [][]c17Svc{nil, c17FixedSvc, {{255, []c17Entry{{"st", 1, 0}, {"pre", 1, 0}, {"lk", 1, 2}, {"lk", 3, 1}}}},
+			{{0, []c17Entry{{"st", 0, 0}}}, {0xFFFFFFFF, []c17Entry{{"pre", 2, 0}, {"lk", 2, 0}}}}} {
 			idx++
 			if r.Mine(idx) {
 				c17RunConfig(r, nil, cfg, h, false, nil)
